@@ -187,6 +187,10 @@ func checkC07(w *World, r *Report) {
 				return true
 			}
 			nSw++
+			// R07.4: a hand-written table is a fallback: it may only run where the lookup of the
+			// registered filter has failed (it decodes runes, so invalid UTF-8 would be altered
+			// if it replaced the library routine)
+			w.checkFallbackPosition(r, fd, sw)
 			for _, c := range htmlSpecials {
 				construct := fmt.Sprintf("escape table arm %q", string(c))
 				cc := arms[c]
@@ -377,3 +381,63 @@ func pureStringOfParam(v ssa.Value, fn *ssa.Function, depth int) string {
 }
 
 var _ = token.NoPos
+
+// checkFallbackPosition: the switch lies in a function that looks the filter up in
+// Environment.filters; the switch must not be reachable on the found-edge of that lookup and
+// every path to it must cross the lookup's not-found edge (or the env == nil edge).
+func (w *World) checkFallbackPosition(r *Report, fd *ast.FuncDecl, sw *ast.SwitchStmt) {
+	obj := w.Info.Defs[fd.Name].(*types.Func)
+	fn := w.ssaFunc(obj)
+	// an instruction inside the switch: the first WriteString of a constant starting with '&'
+	var probe ssa.Instruction
+	instrsOf(fn, func(in ssa.Instruction) {
+		c, ok := in.(ssa.CallInstruction)
+		if !ok || probe != nil {
+			return
+		}
+		for _, a := range c.Common().Args {
+			if s, ok := constString(a); ok && strings.HasPrefix(s, "&") && strings.HasSuffix(s, ";") && in.Pos() >= sw.Pos() && in.Pos() <= sw.End() {
+				probe = in
+			}
+		}
+	})
+	if probe == nil {
+		return
+	}
+	hasLookup := false
+	notFound := func(b *ssa.BasicBlock, i int) bool {
+		v, trueIdx, ok := ifCond(b)
+		if !ok {
+			return false
+		}
+		if ex, ok := v.(*ssa.Extract); ok && ex.Index == 1 {
+			if lk, ok := ex.Tuple.(*ssa.Lookup); ok {
+				if _, ok := fieldLoad(lk.X, "Environment", "filters"); ok {
+					hasLookup = true
+					return i != trueIdx
+				}
+			}
+		}
+		// ctx.env == nil: no registered filters at all
+		if bo, ok := v.(*ssa.BinOp); ok && isNilConst(bo.Y) && isNamed(bo.X.Type(), twigPath, "Environment") {
+			isNil := (bo.Op == token.EQL) == (i == trueIdx)
+			return isNil
+		}
+		return false
+	}
+	for _, b := range fn.Blocks {
+		for i := range b.Succs {
+			notFound(b, i) // sets hasLookup
+		}
+	}
+	bad, _ := existsPathAvoiding(fn, probe, nil, notFound)
+	construct := "hand-written escape table is only a fallback"
+	switch {
+	case !hasLookup:
+		r.ok("R07.4", w.declName(fd), construct, w.pos(sw), "the function does not look filters up (table used unconditionally is checked by R07.3 only)", false)
+	case bad:
+		r.bad("R07.4", w.declName(fd), construct, w.pos(sw), "the hand-written escape loop can run although the registered escape filter exists (it is reachable without the lookup having failed): it decodes the string rune by rune, so bytes that are not valid UTF-8 are replaced by U+FFFD instead of passing through unchanged, and a user-registered escape filter is bypassed")
+	default:
+		r.ok("R07.4", w.declName(fd), construct, w.pos(sw), "reachable only across the not-found edge of the lookup in Environment.filters", true)
+	}
+}
